@@ -11,14 +11,15 @@ import scipy.sparse as sps
 from hypothesis import strategies as st
 
 from ..core import Violation, require, require_equal
-from ..gen.sparse import build_sparse, dense_of, is_unsorted, sparse_spec
+from ..gen.sparse import build_sparse as _build_sparse, dense_of as _dense_of, is_unsorted, sparse_spec
 
 ID = "C35"
 RULE = (
     "Hypothesis draws a utility name and its arguments: sparse matrices 1..8 x 1..8 in csr/csc/coo with "
     "densities {0,.2,.5,.9}, empty lines, unsorted within-line indices, explicit zeros; index sets "
     "sorted/unsorted, with repetition where numpy semantics allow, boolean masks, single ints; run-length "
-    "counts including 0; index-pointer intervals free, ordered with overlaps and gaps, or taken from the indptr of a "
+    "counts including 0; stored values small integers, large integers differing by one, floats differing in the last "
+    "digits, or (copying utilities) all entries times 1e-15 / 1e15 / 1+2^-40; index-pointer intervals free, ordered with overlaps and gaps, or taken from the indptr of a "
     "compressed matrix for a line list with repetitions. Oracle = the dense numpy expression of the docstring, exact equality. "
     "Non-trivial = matrix with >=2 stored entries, or index/count array of length >=2; distinct = hash of spec."
 )
@@ -43,7 +44,7 @@ FNS = [
     "expand_indices_nd", "expand_indices_add_increment", "kron", "row_col_data", "optimized_storage",
 ]
 REQUIRED = {f: 0.015 for f in FNS}
-REQUIRED.update({"eip-ordered": 0.003, "eip-indptr": 0.006, "eip-ordered-overlap-and-gap": 0.002})
+REQUIRED.update({"values-scaled": 0.03, "rle-int-large": 0.003, "rle-float-close": 0.003, "eip-ordered": 0.003, "eip-indptr": 0.006, "eip-ordered-overlap-and-gap": 0.002})
 
 
 # ----------------------------------------------------------------------------- strategies
@@ -135,11 +136,13 @@ def _spec(draw):
     elif fn == "rlencode":
         k, n = draw(st.integers(1, 3)), draw(st.integers(1, 8))
         s.update(A=draw(st.lists(st.lists(st.integers(0, 2), min_size=n, max_size=n), min_size=k, max_size=k)))
+        _value_domain(draw, s)
     elif fn == "rldecode":
         k = draw(st.integers(1, 6))
         s.update(A=draw(st.lists(st.integers(-5, 9), min_size=k, max_size=k)),
                  n=draw(st.lists(st.integers(0, 3), min_size=k, max_size=k)),
                  cols=draw(st.integers(0, 2)))
+        _value_domain(draw, s)
     elif fn == "expand_index_pointers":
         k = draw(st.integers(1, 6))
         mode = draw(st.sampled_from(["nn", "1n", "n1"]))
@@ -171,8 +174,33 @@ def _spec(draw):
     return s
 
 
+def _value_domain(draw, s):
+    """Where the stored values live: small integers, large integers that differ by one (cell / node numbers of big
+    grids), or floats that differ in the last digits only. The utilities copy and compare values, they never compute
+    with them, so equality with the numpy reference stays exact in every domain."""
+    s["base"] = draw(st.sampled_from([0, 0, 0, 10**5, 250000, 10**9, -10**6]))
+    s["eps"] = draw(st.sampled_from([None, None, None, 1e-9, 1e-12, 2.0**-40]))
+
+
+def _values(A, s):
+    A = np.asarray(A)
+    if s.get("eps") is not None:
+        return float(s.get("base", 0)) + A.astype(float) * s["eps"] * max(abs(s.get("base", 0)), 1)
+    return A.astype(int) + int(s.get("base", 0))
+
+
+COPYING = ("slice_sparse_matrix", "zero_rows", "zero_columns", "merge_matrices", "stack_mat", "stack_diag", "copy",
+           "optimized_storage", "row_col_data")
+
+
 def strategy(tier):
-    return _spec()
+    def vmul(s):
+        mats = [s[k] for k in ("A", "B") if isinstance(s.get(k), dict) and "entries" in s[k]]
+        if s["fn"] in COPYING and mats and all(m["fmt"] in ("csr", "csc", "coo") for m in mats):
+            return st.sampled_from([1.0, 1.0, 1.0, 1e-15, 1e15, 1.0 + 2.0**-40, -1e-9]).map(lambda v: dict(s, vmul=v))
+        return st.just(s)
+
+    return _spec().flatmap(vmul)
 
 
 # ----------------------------------------------------------------------------- check
@@ -198,6 +226,19 @@ def check(s):
     ao = pp.array_operations
     fn = s["fn"]
     labels = [fn]
+    vm = float(s.get("vmul", 1.0))
+    if vm != 1.0:
+        labels.append("values-scaled")
+
+    def build_sparse(spec, fmt=None):  # noqa: F811 - stored values times vmul (structure and explicit zeros kept)
+        M = _build_sparse(spec, fmt)
+        if vm != 1.0:
+            M.data = M.data * vm
+        return M
+
+    def dense_of(spec):  # noqa: F811
+        return _dense_of(spec) * vm if vm != 1.0 else _dense_of(spec)
+
     for k in ("A", "B"):
         if isinstance(s.get(k), dict) and "entries" in s[k]:
             if is_unsorted(s[k]):
@@ -349,7 +390,8 @@ def check(s):
         require_equal(i, np.array(ei), "blockdiagindex2-i", "")
         require_equal(j, np.array(ej), "blockdiagindex2-j", "")
     elif fn == "rlencode":
-        A = np.array(s["A"], dtype=int)
+        A = _values(np.array(s["A"], dtype=int), s)
+        labels.append("rle-" + ("float-close" if s.get("eps") is not None else "int-large" if s.get("base") else "int-small"))
         comp, num = mo.rlencode(A)
         require(comp.shape[1] == num.size and np.all(num >= 1), "rlencode-shape", "")
         require_equal(np.repeat(comp, num, axis=1), A, "rlencode-roundtrip", "repeat(comp,num) != A")
@@ -359,7 +401,7 @@ def check(s):
         back = mo.rldecode(comp.T, num).T
         require_equal(back, A, "rldecode-roundtrip", "rldecode(rlencode(A)) != A")
     elif fn == "rldecode":
-        A = np.array(s["A"], dtype=int)
+        A = _values(np.array(s["A"], dtype=int), s)
         n = np.array(s["n"], dtype=int)
         if s["cols"]:
             A = np.stack([A + 10 * c for c in range(s["cols"] + 1)], axis=1)
